@@ -272,7 +272,7 @@ func runC14(c *Ctx, r *Rec) {
 	for _, b := range [][2]string{{"GetValues", "GetValue"}, {"RemoveValues", "RemoveValue"}} {
 		if fd := ms[b[0]]; fd != nil {
 			bad := bulkFold(c, info, fd, b[1], true)
-			r.check(bad == "", "D1-bulk-fold", c.fdName(fd), c.pos(fd.Pos()), "applies "+b[1]+" to every requested key, in order, and records each result", bad)
+			r.verdict("D1-bulk-fold", c.fdName(fd), c.pos(fd.Pos()), "applies "+b[1]+" to every requested key, in order, and records each result", bad)
 		}
 	}
 	r.floor("D1-bulk-fold", 2)
@@ -288,7 +288,7 @@ func runC14(c *Ctx, r *Rec) {
 		construct := c.fdName(fd)
 		sf := fa.byFD[fd]
 		if sf == nil {
-			r.undecided("D2-constructor-copies", construct, c.pos(fd.Pos()), "no SSA summary")
+			r.skip("D2-constructor-copies", construct, c.pos(fd.Pos()), "no SSA summary")
 			continue
 		}
 		sum := fa.sum[sf]
@@ -304,8 +304,9 @@ func runC14(c *Ctx, r *Rec) {
 		// per-entry stores
 		loops := loopsIn(fd.Body)
 		if len(paramObjs(info, fd)) > 0 {
-			if len(loops) != 1 {
-				bad = fmt.Sprintf("%d loops, required one loop over the source", len(loops))
+			if bad != "" {
+			} else if len(loops) != 1 {
+				bad = fmt.Sprintf("skip: %d loops; the per-entry rule is bound to one loop over the source", len(loops))
 			} else if s := entryStoreOK(info, fd, loops[0]); s != "" {
 				bad = s
 			} else if fs, isFor := loops[0].(*ast.ForStmt); isFor && fs.Post == nil {
@@ -318,7 +319,7 @@ func runC14(c *Ctx, r *Rec) {
 				}
 			}
 		}
-		r.check(bad == "", "D2-constructor-copies", construct, c.pos(fd.Pos()), "made in the call; each iteration stores the visited entry's key and value", bad)
+		r.verdict("D2-constructor-copies", construct, c.pos(fd.Pos()), "made in the call; each iteration stores the visited entry's key and value", bad)
 	}
 	r.floor("D2-constructor-copies", 4)
 
@@ -327,9 +328,9 @@ func runC14(c *Ctx, r *Rec) {
 		bad := ""
 		loops := loopsIn(fd.Body)
 		if len(loops) != 1 {
-			bad = "AsArray is not one range loop over the map"
+			bad = "skip: AsArray is not one range loop over the map"
 		} else if rs, ok := loops[0].(*ast.RangeStmt); !ok || !isObj(info, rs.X, recvObj(info, fd)) {
-			bad = "AsArray does not range over the receiver"
+			bad = "skip: AsArray does not range over the receiver"
 		} else {
 			kObj, vObj := identObj(info, rs.Key), identObj(info, rs.Value)
 			okMake := false
@@ -344,7 +345,7 @@ func runC14(c *Ctx, r *Rec) {
 				bad = "the association placed in the view is not built from the ranged key and value of the same entry"
 			}
 		}
-		r.check(bad == "", "D3-views", c.fdName(fd), c.pos(fd.Pos()), "each element is Association.Make(key, value) of the ranged entry", bad)
+		r.verdict("D3-views", c.fdName(fd), c.pos(fd.Pos()), "each element is Association.Make(key, value) of the ranged entry", bad)
 	}
 	for _, nm := range []string{"GetKeys", "GetValues"} {
 		fd := ms[nm]
@@ -354,9 +355,9 @@ func runC14(c *Ctx, r *Rec) {
 		loops := loopsIn(fd.Body)
 		bad := ""
 		if len(loops) != 1 {
-			bad = "not a single loop"
+			bad = "skip: not a single loop"
 		} else {
-			// the stored element: SetValue(index, X) / AppendValue(X)
+			// the stored element: SetValue(index, X) / AppendValue(X) / X[i] = e / append(X, e)
 			var stored ast.Expr
 			inspectNoLit(loops[0], func(x ast.Node) bool {
 				if _, mname, call, ok := methodCall(x); ok {
@@ -367,26 +368,48 @@ func runC14(c *Ctx, r *Rec) {
 						stored = call.Args[0]
 					}
 				}
+				if call, ok := x.(*ast.CallExpr); ok && isBuiltinCall(info, call, "append") && len(call.Args) == 2 {
+					stored = call.Args[1]
+				}
+				if as, ok := x.(*ast.AssignStmt); ok && len(as.Lhs) == 1 && len(as.Rhs) == 1 {
+					if _, isIx := ast.Unparen(as.Lhs[0]).(*ast.IndexExpr); isIx {
+						stored = as.Rhs[0]
+					}
+				}
 				return true
 			})
 			if stored == nil {
-				bad = "no element is stored per iteration"
+				bad = "skip: no element store recognised in the loop"
 			} else {
 				src := resolveInit(info, fd, stored)
 				_, mname, call, ok := methodCall(src)
+				ix, isIx := src.(*ast.IndexExpr)
+				recvRead := isIx && isObj(info, ix.X, recvObj(info, fd))
 				switch nm {
 				case "GetKeys":
-					if !ok || mname != "GetKey" {
+					switch {
+					case ok && mname == "GetKey":
+					case ok && mname == "GetValue", recvRead:
 						bad = "the stored element is " + exprStr(src) + ", required the visited association's GetKey()"
+					default:
+						bad = "skip: the stored element " + exprStr(src) + " is not an accessor call"
 					}
 				case "GetValues":
-					if !ok || mname != "GetValue" || len(call.Args) != 1 {
+					switch {
+					case ok && mname == "GetValue" && len(call.Args) == 1, recvRead:
+					case ok && (mname == "GetKey" || mname == "GetValue"):
 						bad = "the stored element is " + exprStr(src) + ", required GetValue(key) of the visited key"
+					default:
+						if _, isID := src.(*ast.Ident); isID {
+							bad = "the stored element is " + exprStr(src) + ", required GetValue(key) of the visited key"
+						} else {
+							bad = "skip: the stored element " + exprStr(src) + " is not a lookup"
+						}
 					}
 				}
 			}
 		}
-		r.check(bad == "", "D3-views", c.fdName(fd), c.pos(fd.Pos()), "one element per visited entry, taken from that entry", bad)
+		r.verdict("D3-views", c.fdName(fd), c.pos(fd.Pos()), "one element per visited entry, taken from that entry", bad)
 	}
 	r.floor("D3-views", 3)
 
@@ -497,19 +520,28 @@ func deleteGuardOK(c *Ctx, info *types.Info, fd *ast.FuncDecl) string {
 // entryStoreOK: inside the constructor loop,  m[K] = V  with K and V taken from
 // the same visited entry.
 func entryStoreOK(info *types.Info, fd *ast.FuncDecl, loop ast.Stmt) string {
-	var store *ast.AssignStmt
+	var store ast.Node
+	var keyE, valE ast.Expr
 	inspectNoLit(loop, func(x ast.Node) bool {
 		if as, ok := x.(*ast.AssignStmt); ok && len(as.Lhs) == 1 && len(as.Rhs) == 1 {
-			if _, ok := ast.Unparen(as.Lhs[0]).(*ast.IndexExpr); ok {
-				if _, isMap := info.Types[ast.Unparen(as.Lhs[0]).(*ast.IndexExpr).X].Type.Underlying().(*types.Map); isMap {
-					store = as
+			if ix, ok := ast.Unparen(as.Lhs[0]).(*ast.IndexExpr); ok {
+				if _, isMap := info.Types[ix.X].Type.Underlying().(*types.Map); isMap {
+					store, keyE, valE = as, ix.Index, as.Rhs[0]
+				}
+			}
+		}
+		// the map type's own single-entry store, called on the map being built
+		if rx, mname, call, ok := methodCall(x); ok && mname == "SetValue" && len(call.Args) == 2 {
+			if t := info.Types[rx].Type; t != nil {
+				if _, isMap := t.Underlying().(*types.Map); isMap {
+					store, keyE, valE = call, call.Args[0], call.Args[1]
 				}
 			}
 		}
 		return true
 	})
 	if store == nil {
-		return "no map store in the loop"
+		return "skip: no map store recognised in the loop"
 	}
 	for _, n := range pathTo(loop, store) {
 		switch n.(type) {
@@ -517,8 +549,7 @@ func entryStoreOK(info *types.Info, fd *ast.FuncDecl, loop ast.Stmt) string {
 			return "the per-entry store is conditional: for a repeated key the last entry must win, so every visited entry has to be stored"
 		}
 	}
-	ix := ast.Unparen(store.Lhs[0]).(*ast.IndexExpr)
-	kSrc, vSrc := resolveInit(info, fd, ix.Index), resolveInit(info, fd, store.Rhs[0])
+	kSrc, vSrc := resolveInit(info, fd, keyE), resolveInit(info, fd, valE)
 	if rs, ok := loop.(*ast.RangeStmt); ok {
 		if _, isMap := info.Types[rs.X].Type.Underlying().(*types.Map); isMap {
 			if identObj(info, rs.Key) != nil && isObj(info, kSrc, identObj(info, rs.Key)) && isObj(info, vSrc, identObj(info, rs.Value)) {
